@@ -827,7 +827,8 @@ NONTRIVIAL = {
 }
 
 
-def make_run(prop, bias, scenario_filter=None, quick_cases=1280, thorough_cases=32000, per_shard_scenarios=(4, 12)):
+def make_run(prop, bias, scenario_filter=None, quick_cases=1280, thorough_cases=32000, per_shard_scenarios=(4, 12),
+             enumerate_failures=False):
     def run(ctx):
         simmod.setup()
         items = catalogue(ctx.tier)
@@ -862,6 +863,27 @@ def make_run(prop, bias, scenario_filter=None, quick_cases=1280, thorough_cases=
                 ctx.record_violation(violation, case)
         ctx.hyp(cases(mine, bias), body, ctx.budget(quick_cases, thorough_cases), name="traverse",
                 shrink=(ctx.tier == "thorough"))
+        if enumerate_failures:
+            # enumerated, not sampled: every test of the scenario failing persistently, with and without retries
+            # (quick: the shard's first scenario only)
+            names = sorted(mine)[:1] if ctx.tier == "quick" else sorted(mine)
+            for name in names:
+                scenario = mine[name]
+                info = scenario_info(scenario)
+                for ident in info["idents"]:
+                    for status in (("FAIL", "NEVER") if ctx.tier == "quick" else ("FAIL", "ERROR", "SKIP", "NEVER")):
+                        for tries in (None, 2):
+                            case = {"scenario_name": name, "scenario": scenario.to_json(),
+                                    "run": {"test_timeout": 1} if tries is None else {"test_timeout": 1, "max_tries": tries},
+                                    "pools": {"mode": "empty", "shared": [], "own": {}}, "durations": ["0.1T"],
+                                    "outcomes": ["PASS"], "always_fail": {ident: status}}
+                            try:
+                                body(case)
+                            except Violation as violation:
+                                if not ctx.record_violation(violation, case):
+                                    continue
+            ctx.exhaustive_parts.append("every test of the shard's scenario(s) failing persistently (FAIL/NEVER[/ERROR/SKIP]) "
+                                        "with max_tries unset and 2")
         from . import memo
         memo.self_check()
         ctx.extra["memo_hits"] = memo.STATS["hits"]
@@ -947,6 +969,7 @@ BIASES = {
             "fail_modes": ["none", "none", "none", "some"]},
 }
 DRIVER_ARGS = {
+    "C02": {"enumerate_failures": True},
     "C04": {"scenario_filter": lambda name, scenario: len(scenario.nets.split()) >= 2},
     "C05": {"scenario_filter": lambda name, scenario: any(k in name for k in ("gui", "get", "finale")),
             "quick_cases": 640},
